@@ -102,7 +102,7 @@ static std::string gen(const std::string &prop, uint64_t base, uint64_t idx, boo
 #else
     bool guard = idx % 5 == 3;
 #endif
-    line(strf("cfg tasks=%d sched=%s sseed=0x%llx layout=%s", ntasks, sched.c_str(), (unsigned long long)r.next(), guard ? "guard" : "packed"));
+    line(strf("cfg tasks=%d sched=%s sseed=0x%llx layout=%s env=%d", ntasks, sched.c_str(), (unsigned long long)r.next(), guard ? "guard" : "packed", (int)((idx / 3) % 2)));
     int next_obj = 0;
     std::vector<std::string> objlines, calllines;  // (set-up calls come first in calllines)
     auto new_obj = [&](int task, size_t size, bool shared = false) {
@@ -325,7 +325,8 @@ struct World {
     size_t arena_used = kArenaSize;          // bytes of the arena that hold objects (rounded up to pages)
     struct HeapObj { uintptr_t p; size_t n; int task; };
     std::vector<HeapObj> heap;              // blocks allocated by library code during a call: owned by the calling task until freed
-    uint64_t pr_heap = 0, pr_extra = 0;
+    uint64_t pr_heap = 0, pr_extra = 0, pr_env = 0;
+    bool env_on = false;                    // every environment variable library code asks for reads "1" in this run
     uint64_t events = 0;
     uint64_t static_bytes = 0;
     bool verbose = false;
@@ -562,6 +563,20 @@ void reent_libc_trap(uintptr_t pc, const char *name) {
             "  add $128,%rsp\n  pop %rax\n  pop %r9\n  pop %r8\n  pop %rcx\n  pop %rdx\n  pop %rsi\n  pop %rdi\n"              \
             "  jmp __real_" #name "\n.section .rodata\n.Lname_" #name ": .asciz \"" #name "\"\n.text\n");
 #include "libc_denylist.inc"
+
+// The process environment is global state that a library call may consult (debug switches and the like). Cooperative fault point:
+// in half of the runs every variable that library code asks for is "set" (to "1"), so that whatever hides behind such a switch runs.
+char *__real_getenv(const char *);
+char *__real_secure_getenv(const char *);
+static char *env_answer(const char *name, uintptr_t pc, char *real) {
+    if (!lib_active() || !sim::g_symtab.is_repo(pc)) return real;
+    W->pr_env++;
+    (void)name;
+    static char one[] = "1";
+    return W->env_on ? one : nullptr;
+}
+char *__wrap_getenv(const char *n) { return env_answer(n, (uintptr_t)__builtin_return_address(0), __real_getenv(n)); }
+char *__wrap_secure_getenv(const char *n) { return env_answer(n, (uintptr_t)__builtin_return_address(0), __real_secure_getenv(n)); }
 
 void *__wrap_memset(void *d, int c, size_t n) {
     uintptr_t pc = (uintptr_t)__builtin_return_address(0);
@@ -936,6 +951,7 @@ static void exec(const std::string &text, bool verbose) {
             if (col != std::string::npos) { w.p = atof(s.c_str() + col + 1); w.pct_changes = atoi(s.c_str() + col + 1); }
             sseed = kv.u64("sseed", 1);
             w.guard_layout = kv.str("layout", "packed") == "guard";
+            w.env_on = kv.u64("env", 0);
             if (w.guard_layout) cursor = kPage;
             w.prog.assign(ntasks, {});
         } else if (kv.op == "obj") {
@@ -1034,6 +1050,7 @@ static void exec(const std::string &text, bool verbose) {
     g_res.counters["probe.calls_with_invalid_arguments"] = w.pr_badargs;
     g_res.counters["library_heap_blocks"] = w.pr_heap;
     if (bind_nextras) g_res.counters["calls_of_new_pointer_free_api"] = w.pr_extra;
+    if (w.pr_env) g_res.counters["environment_lookups_by_library_code"] = w.pr_env;
     g_res.counters["scen." + saved_policy] = 1;
     g_res.counters[w.guard_layout ? "layout.guard_pages" : "layout.packed"] = 1;
     sim::finish_run(g_res);
